@@ -93,7 +93,28 @@ pub struct AppSpec {
     pub discard_responses: bool,
     /// response_output_policy section as JSON (None = none)
     pub output_policy: Option<Value>,
+    /// energy traversal model (ICE vehicle "veh" over the bundled Toyota Camry model) instead of `trav`
+    #[serde(default)]
+    pub energy: Option<EnergyAppSpec>,
 }
+
+#[derive(Clone, Debug, Serialize, Deserialize, PartialEq)]
+pub struct EnergyAppSpec {
+    /// per edge, km/h (time model: speed table) and decimal grade (grade table)
+    pub speeds_kph: Vec<f64>,
+    pub grades: Vec<f64>,
+    pub adjustment: f64,
+    /// prediction cache: (size, key precision of the speed, key precision of the grade)
+    pub cache: Option<(usize, i32, i32)>,
+    /// wrap the random forest in the interpolation model (continuous response)
+    pub interpolate: bool,
+    pub w_energy: f64,
+    /// 0 Toyota Camry, 1 Chevrolet Volt charge sustaining (varies with speed over the whole range)
+    #[serde(default)]
+    pub model: u8,
+}
+
+pub const ENERGY_VEHICLE: &str = "veh";
 
 impl AppSpec {
     pub fn simple(net: NetCase) -> AppSpec {
@@ -122,6 +143,7 @@ impl AppSpec {
             termination: None,
             discard_responses: false,
             output_policy: None,
+            energy: None,
         }
     }
     pub fn has_time(&self) -> bool {
@@ -232,6 +254,52 @@ pub fn write_app(spec: &AppSpec, dir: &CaseDir) -> std::io::Result<AppFiles> {
         cfg.insert("state".into(), Value::Object(state));
     }
     // traversal
+    if let Some(en) = &spec.energy {
+        let sp = p("speeds.txt");
+        let gp = p("grades.txt");
+        let (mut st, mut gt) = (String::new(), String::new());
+        for i in 0..m.max(1) {
+            st.push_str(&format!("{}\n", en.speeds_kph.get(i).copied().unwrap_or(40.0)));
+            gt.push_str(&format!("{}\n", en.grades.get(i).copied().unwrap_or(0.0)));
+        }
+        write_text(&sp, &st, false)?;
+        write_text(&gp, &gt, false)?;
+        let model = crate::engine::repo_root()
+            .join("rust/routee-compass-powertrain/src/routee/test")
+            .join(if en.model == 1 { "2016_CHEVROLET_Volt_Charge_Sustaining.bin" } else { "Toyota_Camry.bin" });
+        let model_type = if en.interpolate {
+            json!({"interpolate": {"underlying_model_type": "smartcore",
+                   "speed_lower_bound": 0, "speed_upper_bound": 100, "speed_bins": 41,
+                   "grade_lower_bound": -0.2, "grade_upper_bound": 0.2, "grade_bins": 21}})
+        } else {
+            json!("smartcore")
+        };
+        let mut veh = serde_json::Map::new();
+        veh.insert("name".into(), json!(ENERGY_VEHICLE));
+        veh.insert("type".into(), json!("ice"));
+        veh.insert("model_input_file".into(), json!(s(&model)));
+        veh.insert("model_type".into(), model_type);
+        veh.insert("speed_unit".into(), json!("miles_per_hour"));
+        veh.insert("grade_unit".into(), json!("decimal"));
+        veh.insert("energy_rate_unit".into(), json!("gallons_gasoline_per_mile"));
+        veh.insert("ideal_energy_rate".into(), json!(0.02857143));
+        veh.insert("real_world_energy_adjustment".into(), json!(en.adjustment));
+        if let Some((size, ps, pg)) = en.cache {
+            veh.insert("float_cache_policy".into(), json!({"cache_size": size, "key_precisions": [ps, pg]}));
+        }
+        cfg.insert(
+            "traversal".into(),
+            json!({"type": "energy_model",
+                   "time_model_speed_unit": "kilometers_per_hour",
+                   "grade_table_input_file": s(&gp),
+                   "grade_table_grade_unit": "decimal",
+                   "time_unit": "hours",
+                   "distance_unit": "miles",
+                   "time_model": {"type": "speed_table", "speed_table_input_file": s(&sp),
+                                  "speed_unit": "kilometers_per_hour", "distance_unit": "miles", "time_unit": "hours"},
+                   "vehicles": [Value::Object(veh)]}),
+        );
+    } else {
     match &spec.trav {
         TravSpec::Distance { unit } => {
             cfg.insert(
@@ -263,6 +331,7 @@ pub fn write_app(spec: &AppSpec, dir: &CaseDir) -> std::io::Result<AppFiles> {
             );
         }
     }
+    }
     // access
     match &spec.access {
         Some(td) if spec.has_time() => {
@@ -292,9 +361,13 @@ pub fn write_app(spec: &AppSpec, dir: &CaseDir) -> std::io::Result<AppFiles> {
     let mut rates = serde_json::Map::new();
     weights.insert(DIST.into(), json!(spec.w_dist));
     rates.insert(DIST.into(), spec.r_dist.to_json());
-    if spec.has_time() {
+    if spec.has_time() || spec.energy.is_some() {
         weights.insert(TIME.into(), json!(spec.w_time));
         rates.insert(TIME.into(), spec.r_time.to_json());
+    }
+    if let Some(en) = &spec.energy {
+        weights.insert("energy_liquid".into(), json!(en.w_energy));
+        rates.insert("energy_liquid".into(), json!({"type": "raw"}));
     }
     cfg.insert(
         "cost".into(),
